@@ -21,6 +21,25 @@ INSENSITIVE_METHODS = {"add", "update", "discard", "setdefault", "difference_upd
 ORDER_SINK_FUNCS = {"list", "tuple", "enumerate", "zip", "iter", "next", "str", "repr", "reversed"}
 
 
+def _total_key(key):
+    """Keys under which distinct hashable elements cannot tie: the element itself in some canonical form."""
+    if isinstance(key, ast.Name) and key.id in ("sorted", "str", "repr", "tuple", "list"):
+        return True
+    if isinstance(key, ast.Attribute) and key.attr in ("hashable_form_of_reference", "hashable_form_of_field_reference"):
+        return True
+    if isinstance(key, ast.Lambda) and len(key.args.args) == 1:
+        p = key.args.args[0].arg
+        b = key.body
+        parts = b.elts if isinstance(b, ast.Tuple) else [b]
+        for x in parts:
+            if isinstance(x, ast.Name) and x.id == p:
+                return True
+            if isinstance(x, ast.Call) and isinstance(x.func, ast.Name) and x.func.id in ("sorted", "str", "repr", "tuple", "list") \
+                    and x.args and isinstance(x.args[0], ast.Name) and x.args[0].id == p:
+                return True
+    return False
+
+
 class Env:
     def __init__(self):
         self.names = {}  # name -> type
@@ -213,6 +232,13 @@ class Analyzer:
             base = cn.split(".")[-1]
             if cn in ("set", "frozenset"):
                 return "U"
+            if cn == "sorted" and e.args:
+                # sorted(U, key=K) is ordered only if K orders the elements totally; with a key such as `len`, elements
+                # that compare equal keep the set's own (hash) order, because sorted() is stable
+                key = next((k.value for k in e.keywords if k.arg == "key"), None)
+                if key is not None and self.expr_type(m, f, env, e.args[0]) in ("U", "DU") and not _total_key(key):
+                    return "U"
+                return None
             if base == "defaultdict" and e.args and isinstance(e.args[0], ast.Name) and e.args[0].id in ("set", "frozenset"):
                 return "DoU"
             if isinstance(e.func, ast.Attribute):
